@@ -39,7 +39,7 @@ def case_strategy(combo_list):
         return st.sampled_from(forms).flatmap(lambda f: st.sampled_from([c for c in by_type[t] if c["form"] == f]))
     stratified = st.sampled_from(types).flatmap(of_type)
     # half of the cases uniformly over all combinations (weights the many elemental fcc/bcc/hcp crystals), half by type
-    return st.fixed_dictionaries({"combo": st.one_of(st.sampled_from(combo_list), stratified), "pres": gm.presentations(), "gap": gaps(), "cform": cforms()})
+    return st.fixed_dictionaries({"combo": st.one_of(st.sampled_from(combo_list), stratified), "pres": gm.presentations(), "gap": gaps(), "cform": cforms(), "mono_ttt": st.booleans()})
 
 
 def gaps():
@@ -56,4 +56,4 @@ def cforms():
 
 
 def item_strategy(combo):
-    return st.fixed_dictionaries({"combo": st.just(combo), "pres": gm.presentations(), "gap": gaps(), "cform": cforms()})
+    return st.fixed_dictionaries({"combo": st.just(combo), "pres": gm.presentations(), "gap": gaps(), "cform": cforms(), "mono_ttt": st.booleans()})
